@@ -58,6 +58,8 @@ def specCheck (h : Hist) (s sPrev : List ObjRec) (op : Op ObjRec) (prevDump : St
   let t : Tree ObjRec := { minC := h.minC, maxC := h.maxC, root := r.tree, size := r.size, height := r.depth }
   if !wfNode h.maxC r.depth r.tree then
     some s!"tree-not-well-formed(Depth={r.depth}):{(wfDiag h.maxC r.depth r.tree).getD "?"}"
+  else if !(r.tree.leaf || !r.tree.entries.isEmpty) then
+    some s!"Depth={r.depth}-but-the-tree-has-no-leaf(non-leaf-root-without-entries)"
   else if r.size != t.abs.length then some s!"Size={r.size}-but-{t.abs.length}-objects-stored"
   else if !(t.abs.isPerm s) then some s!"stored-objects-differ-from-history:stored=[{idsStr t.abs}]-expected=[{idsStr s}]"
   else
@@ -90,6 +92,7 @@ def judgeHist (h : Hist) (steps : List Tok) : String := Id.run do
   let m := h.ops.length
   let mut maxH := 1
   let mut sts := steps
+  let mut firstDiff : Option String := none
   for (name, op) in h.ops do
     i := i + 1
     let at_ := s!"step={i}/{m}-op={name}"
@@ -103,23 +106,27 @@ def judgeHist (h : Hist) (steps : List Tok) : String := Id.run do
       match specCheck h s sPrev op prevDump prev r with
       | some why => return s!"SPEC {cls} {at_}-{why}"
       | none =>
-        -- correspondence with the model
-        match model.step goHeur op with
-        | .error f => return s!"DIFF {cls} {at_}-model-faults-{faultStr f}-impl-does-not"
-        | .ok (t', dr) =>
-          model := t'
-          let dump := nodeStr r.tree
-          if !r.parentOK then return s!"DIFF {cls} {at_}-parent-link-inconsistent(model-assumption)"
-          if dump != nodeStr t'.root then return s!"DIFF {cls} {at_}-tree-differs-from-model:impl={dump}-model={nodeStr t'.root}"
-          if r.size != t'.size || r.depth != t'.height then return s!"DIFF {cls} {at_}-size/depth-differ-from-model"
-          if r.delres != dr then return s!"DIFF {cls} {at_}-delete-result-differs-from-model"
-          for (q, a) in h.queries.zip r.answers do
-            match t'.search q with
-            | .ok ma => if ma != a then return s!"DIFF {cls} {at_}-search-order-differs-from-model"
-            | .error f => return s!"DIFF {cls} {at_}-model-search-faults-{faultStr f}"
-          prevDump := dump
-          prev := some r
-          maxH := max maxH r.depth
+        -- correspondence with the model; after the first difference only the Spec is evaluated
+        -- on the remaining steps (a later SPEC verdict takes precedence over the DIFF)
+        let dump := nodeStr r.tree
+        if firstDiff.isNone then
+          match model.step goHeur op with
+          | .error f => firstDiff := some s!"{at_}-model-faults-{faultStr f}-impl-does-not"
+          | .ok (t', dr) =>
+            model := t'
+            if !r.parentOK then firstDiff := some s!"{at_}-parent-link-inconsistent(model-assumption)"
+            else if dump != nodeStr t'.root then firstDiff := some s!"{at_}-tree-differs-from-model:impl={dump}-model={nodeStr t'.root}"
+            else if r.size != t'.size || r.depth != t'.height then firstDiff := some s!"{at_}-size/depth-differ-from-model"
+            else if r.delres != dr then firstDiff := some s!"{at_}-delete-result-differs-from-model"
+            else
+              for (q, a) in h.queries.zip r.answers do
+                match t'.search q with
+                | .ok ma => if ma != a && firstDiff.isNone then firstDiff := some s!"{at_}-search-order-differs-from-model"
+                | .error f => if firstDiff.isNone then firstDiff := some s!"{at_}-model-search-faults-{faultStr f}"
+        prevDump := dump
+        prev := some r
+        maxH := max maxH r.depth
+  if let some d := firstDiff then return s!"DIFF {cls} {d}"
   return s!"OK {cls}-h{maxH}"
 
 def judgeLine (line : String) : String :=
